@@ -33,7 +33,7 @@ CFG = {
                     "header.Bloom = CreateBloom(receipts) for every canonical block (enforced by BlockValidator.ValidateState; checked on every generated block)",
                     "the matcher's goroutine pipeline is modelled as a transition system (FIFO channels of unbounded capacity, arbitrary delivery environment that returns the stored vector); channel capacities, the quit/kill shutdown path, context cancellation and retrieval errors are outside the model",
                     "index progress satisfies sections*size <= head+1 (ChainIndexer commits only complete sections of canonical headers); begin/end >= -1 and below 2^63"],
-    "trusted_base": ["Aqv.Model.LogFilter mirrors core/types/bloom9.go, aqua/filters/filter.go, core/bloombits/generator.go and the AND/OR/extraction logic of core/bloombits/matcher.go"],
+    "trusted_base": ["the driver's memoised Keccak and its generator spec column are proved (memoised_hash_is_the_hash, specColumn_is_bitset)", "Aqv.Model.LogFilter mirrors core/types/bloom9.go, aqua/filters/filter.go, core/bloombits/generator.go and the AND/OR/extraction logic of core/bloombits/matcher.go"],
 }
 META = {
     "technique": "Lean 4 proof (no false negatives, transposition, matcher = bloomFilter, Filter.Logs = brute force; unbounded) tied to core/types, core/bloombits and aqua/filters by differential correspondence",
